@@ -251,6 +251,20 @@ func c03Kinds() []c03Kind {
 			ok(db.Model(&KRenamed{}).First(&m), "first-map")
 			verifrt.Assert(verifrt.SameValue(m["other_name"], in.V), "C03.map-value")
 		}},
+		{"column-named-like-another-field", func(db *gorm.DB, s *Store) {
+			in := KCrossNamed{Title: verifrt.Bytes("t", 1), Name: verifrt.Bytes("n", 1)}
+			ok(db.Create(&in), "create")
+			var out KCrossNamed
+			ok(db.First(&out), "first")
+			verifrt.Assert(out.Title == in.Title && out.Name == in.Name, "C03.value")
+			// and from a map keyed by column names
+			ok(db.Model(&KCrossNamed{}).Create(map[string]interface{}{"Name": "tt", "Label": "nn"}), "create-map")
+			for _, e := range s.Log {
+				if e.Kind == "EXEC" && hasPrefix(e.Text, "INSERT") && len(e.Args) == 2 && verifrt.SameValue(e.Args[0], "nn") {
+					verifrt.Assert(indexStr(e.Text, "(`Label`,`Name`)") >= 0, "C03.map-column-misassigned")
+				}
+			}
+		}},
 		{"custom-scanner-valuer", func(db *gorm.DB, s *Store) {
 			in := KCustom{V: TextInt{N: verifrt.Intn("v", 0, 1000000)}}
 			ok(db.Create(&in), "create")
